@@ -1251,12 +1251,14 @@ func metadataHeaders(headers map[string][]string, at time.Time, sizeLimit int) (
 			hk == "Content-Type" ||
 			hk == "Content-Disposition" ||
 			hk == "Content-Encoding" {
-			if !validHeaderValue(hv[0]) {
+			// A header sent on several lines is the list of their values.
+			v := strings.Join(hv, ",")
+			if !validHeaderValue(v) {
 				// It comes back as a response header of every GET and HEAD
 				// (form fields, unlike request headers, arrive unchecked).
 				return meta, ErrorMessagef(ErrInvalidArgument, "control character in the value of %q", hk)
 			}
-			meta[hk] = hv[0]
+			meta[hk] = v
 		}
 	}
 	meta["Last-Modified"] = formatHeaderTime(at)
